@@ -483,3 +483,18 @@ def match_known(known, prop, failure):
         if ok:
             return k
     return None
+
+
+def asked_before(ctx, rng, *fns, p=0.3):
+    """With probability p run the given thunks once and discard what they return: the recorded call that follows is then not the first of
+    its kind in the process, so state kept between calls (a memo keyed too coarsely, a cached array that a later statement updates in
+    place, a reused buffer) shows up as a difference.  Exceptions are ignored here - the recorded call reports them."""
+    if rng.random() >= p:
+        return False
+    ctx.count('asked_before')
+    for fn in fns:
+        try:
+            fn()
+        except Exception:
+            pass
+    return True
